@@ -30,6 +30,7 @@ RULE = ("One evaluation = one seeded execution: client A (dilation enabled) "
         "event-log digests among non-trivial runs.")
 RULE += (' Peer-link cuts are told to both ends or to one end first (the other learns later).')
 RULE += (' A fifth configuration uses transports with bounded send buffers drained by the scheduler; both sides open subchannels, write 3..200 kB and close the wormhole at once or a little later.')
+RULE += (" In a quarter of the runs one side's application calls close() from inside a subchannel callback (connectionMade / dataReceived / connectionLost).")
 LEVEL_TEXT = ("Seeded exploration. After faults stop, every close() that was "
               "called completes (closed notification) within 8000 events / "
               "600 simulated seconds; afterwards the closing side owns no "
@@ -65,8 +66,12 @@ class Owner:
         self.sim = sim
         self.protocols = []
 
+    react = None      # callable(kind) set by run_one
+
     def on_sub_event(self, p, kind, data):
         self.sim.ev("sub", kind)
+        if self.react is not None:
+            self.react(kind)
 
 
 def run_one(seed, tape, opts):
@@ -85,6 +90,20 @@ def run_one(seed, tape, opts):
     reuse_ep = {"A": tape.choose(2, "reuseA") == 0,
                 "B": tape.choose(2, "reuseB") == 0}
     ep_cache = {}
+
+    # an application that closes the wormhole from inside a subchannel
+    # callback (connectionMade / dataReceived / connectionLost), e.g. "last
+    # byte received -> close" (a quarter of the runs, one side)
+    react_kind = tape.pick((None, None, None, "made", "data", "lost"), "react")
+    react_side = tape.pick(("A", "B"), "react_side")
+
+    def make_react(c):
+        def react(kind):
+            if kind == react_kind and not c.close_called and \
+                    not c.is_closed:
+                sim.note("probe.close_from_subchannel_callback." + kind)
+                c.do_close()
+        return react
 
     def sub_ops(c):
         def do_connect(c=c):
@@ -128,6 +147,9 @@ def run_one(seed, tape, opts):
         return {"sub_connect": do_connect, "sub_listen": do_listen,
                 "sub_write": do_write}
     w.extra_ops = {}
+    if react_kind is not None:
+        cl = a if react_side == "A" else b
+        owners[cl.name].react = make_react(cl)
     ops_a, ops_b = sub_ops(a), sub_ops(b)
 
     def dispatch(kind):
